@@ -58,7 +58,7 @@ META.update({
                 technique='outcome tables of `arbitrary`: range containment by constant folding, panic-row infeasibility by interval evaluation, reachability by folding the extracted rows at concrete draws (end points, special values, a fixed spread; all draws of 8/16-bit integer generators of another shape)',
                 text='PARTIAL. Decided: (all families) any returned value comes from the canonical constructor (R-CTOR + table); (integers) int_in_range endpoints fold into the valid range and every panic row is infeasible for every value of the range; a generator of another shape that is a function of one integer draw is decided by folding its extracted rows (conditions, overflow assertions, stored term; core integer methods modelled) over every draw of an 8/16-bit type / the special values of wider ones; '
                      '(strings) target-length range is inside the declared length range, case-mapping growth is flagged structurally; (floats) every panic row that depends on the first draw only is either proven infeasible by interval evaluation, '
-                     'or shown reachable by a concrete attained draw out of ~100 fixed ones (violation). Not decided: rows depending on values produced in retry loops or further draws (reported as undecided), termination of loops.',
+                     'or shown reachable by a concrete attained draw out of ~100 fixed ones (violation); rows reached through the retry loop are decided with the opaque float rebuilt from the mutated bytes as the interval variable (constrained by the loop exit test), intervals being narrowed by the comparisons on the path. Not decided: termination of loops; rows the interval reasoning cannot settle are reported as undecided (none in the quick tier at present).',
                 note=TRUSTED + '; arbitrary::Unstructured::int_in_range returns a value of the range; IEEE-754 arithmetic reproduced in the declared float type'),
     'C14': dict(level='translation_validation', design_ref='DESIGN.md 4.3 R-ARB-INT, 5/C14',
                 technique='constant folding of the int_in_range endpoints in MIR vs the reference valid range; outcome table of arbitrary vs constructor table; other generator shapes: produced set over all draws of 8/16-bit types vs the valid set',
